@@ -62,7 +62,9 @@ def run(ctx: Ctx) -> None:
               (FPFormat(4, 3, "stochastic", srbits=3), FPFormat(5, 2, "stochastic", srbits=5), "sr-bits"),
               (FPFormat(4, 3), FPFormat(5, 2), "sr-default"),
               (FPFormat(8, 23, "nearest"), FPFormat(3, 1, "nearest"), "bwd-only"),
-              (FPFormat(3, 2, "nearest"), FPFormat(8, 23, "nearest"), "fwd-only")]
+              (FPFormat(3, 2, "nearest"), FPFormat(8, 23, "nearest"), "fwd-only"),
+              # all 23 mantissa bits kept: nothing to round, whatever the rounding mode
+              (FPFormat(8, 23), FPFormat(8, 23), "lossless-sr")]
         return ps
 
     def fmt_json(f) -> Dict[str, Any]:
@@ -278,7 +280,7 @@ def run(ctx: Ctx) -> None:
             if d:
                 ctx.violation(f"C15:dynamo:{d.split(':')[0]}", "simulate_format differs from straight-through quantisation of the "
                               f"linear/attention operands with the caller's formats ({d})", key)
-            if fname == "lossless":
+            if fname.startswith("lossless"):
                 d0 = equal_runs(got, base)
                 if d0:
                     ctx.violation("C15:lossless", f"lossless format does not reproduce the original bit for bit ({d0})", key)
@@ -352,7 +354,7 @@ def run(ctx: Ctx) -> None:
 
         lossless_ = FPFormat(8, 23, "nearest")
         for frozen in (["l1.weight"], ["l2.weight", "l1.bias"], ["l1.weight", "l2.weight", "norm.weight"], []):
-            for fa_, fname_ in ((lossless_, "lossless"), (FPFormat(3, 2, "nearest"), "rn E3M2")):
+            for fa_, fname_ in ((lossless_, "lossless"), (FPFormat(8, 23), "lossless-sr"), (FPFormat(3, 2, "nearest"), "rn E3M2")):
                 key = {"path": "dynamo", "frozen": frozen, "formats": fname_, "module": "uu.Linear x2 + uu.LayerNorm"}
                 ctx.count(key, bucket="dynamo/frozen-parameters")
                 xs_ = [torch.randn(5, 8, generator=torch.Generator().manual_seed(3))]
@@ -371,7 +373,7 @@ def run(ctx: Ctx) -> None:
                     ctx.violation("C15:frozen-parameters", "the transformed module does not train the same parameters as the "
                                   "original (a frozen parameter became trainable / received a gradient, or the reverse)", key,
                                   {"transformed": {k_: (v_, got[2][k_] is not None) for k_, v_ in flags_.items()}})
-                elif fname_ == "lossless":
+                elif fname_.startswith("lossless"):
                     d0 = equal_runs(got, want)
                     if d0:
                         ctx.violation("C15:lossless", f"lossless format does not reproduce the original bit for bit ({d0})", key)
